@@ -79,6 +79,7 @@ def scenario_from_graph(g, placement=0, jobs=1, stop=False, sched=None, git_tpl=
     argv += list(extra_argv)
     must = g.get("mustRun")
     scn = {
+        "_g": {k: g.get(k) for k in ("n", "target", "deps", "kind", "par", "cachedTs", "again", "now", "lastTs0")},
         "project": {"config": "" if use_git else "disable_git = true\n", "tasks": tasks, "index": rows, "dirs": dirs},
         "argv": argv, "clock": g.get("now", 1000), "sched": sched or {"seed": 0},
         "git": bool(use_git),
